@@ -23,7 +23,7 @@ use json::J;
 use rustc_driver::Compilation;
 use rustc_hir::def::DefKind;
 use rustc_hir::def_id::{DefId, LocalDefId, LOCAL_CRATE};
-use rustc_middle::ty::print::{with_no_trimmed_paths, with_no_visible_paths};
+use rustc_middle::ty::print::{with_no_trimmed_paths, with_no_visible_paths, with_resolve_crate_name};
 use rustc_middle::ty::TyCtxt;
 use rustc_span::Span;
 
@@ -35,20 +35,15 @@ pub struct Cx<'tcx> {
 impl<'tcx> Cx<'tcx> {
     /// Fully qualified, untrimmed def path, always prefixed by the crate name.
     pub fn path(&self, did: DefId) -> String {
-        let s = with_no_visible_paths!(with_no_trimmed_paths!(self.tcx.def_path_str(did)));
-        if did.is_local() {
-            format!("{}::{}", self.krate, s)
-        } else {
-            s
-        }
+        with_resolve_crate_name!(with_no_visible_paths!(with_no_trimmed_paths!(self.tcx.def_path_str(did))))
     }
 
     pub fn ty_str<T: std::fmt::Display>(&self, t: T) -> String {
-        with_no_visible_paths!(with_no_trimmed_paths!(format!("{}", t)))
+        with_resolve_crate_name!(with_no_visible_paths!(with_no_trimmed_paths!(format!("{}", t))))
     }
 
     pub fn short<T: std::fmt::Debug>(&self, t: T) -> String {
-        with_no_visible_paths!(with_no_trimmed_paths!(format!("{:?}", t)))
+        with_resolve_crate_name!(with_no_visible_paths!(with_no_trimmed_paths!(format!("{:?}", t))))
     }
 
     /// [file, line, col, end_line, end_col] of the span *as written* plus macro provenance.
